@@ -2426,7 +2426,11 @@ func (c *compiler) VisitWhileStmt(s *ast.WhileStmt) ast.VisitResult {
 		}
 
 		c.cbb, c.scp = condBlock, c.exitScope(c.scp) // the condition is not in scope
+		// the condition is evaluated before every iteration, so its temporaries
+		// have to be freed right after it and not once at the end of the enclosing scope
+		c.scp = newScope(c.scp)
 		cond, _, _ := c.evaluate(s.Condition)
+		c.scp = c.exitScope(c.scp)
 		leaveBlock := c.cf.NewBlock("")
 		c.commentNode(c.cbb, s, "")
 		c.cbb.NewCondBr(cond, body, leaveBlock)
@@ -2557,15 +2561,21 @@ func (c *compiler) VisitForStmt(s *ast.ForStmt) ast.VisitResult {
 
 	c.cbb = loopUp
 	// we are counting up, so compare less-or-equal
+	// the end value is evaluated before every iteration (and compiled twice), so its temporaries
+	// have to be freed right after the comparison and not at the end of the loop scope
+	c.scp = newScope(c.scp)
 	to, toType, _ := c.evaluate(s.To)
 	cond = new_IorF_comp(enum.IPredSLE, enum.FPredOLE, c.cbb.NewLoad(indexTyp.IrType(), indexVar), indexTyp, to, toType, to)
+	c.scp = c.exitScope(c.scp)
 	c.commentNode(c.cbb, s, "")
 	c.cbb.NewCondBr(cond, forBody, leaveBlock)
 
 	c.cbb = loopDown
 	// we are counting down, so compare greater-or-equal
+	c.scp = newScope(c.scp)
 	to, toType, _ = c.evaluate(s.To)
 	cond = new_IorF_comp(enum.IPredSGE, enum.FPredOGE, c.cbb.NewLoad(indexTyp.IrType(), indexVar), indexTyp, to, toType, to)
+	c.scp = c.exitScope(c.scp)
 	c.commentNode(c.cbb, s, "")
 	c.cbb.NewCondBr(cond, forBody, leaveBlock)
 
